@@ -56,4 +56,9 @@ reader, the inflater for a compressed message, then the first frame's length, FI
 def msgReaderResetExpected (rsv1 : Bool) : Res :=
   ⟨["ctx=ctx", "flate=h.rsv1", "limitReader.reset"] ++ (if rsv1 then ["resetFlate"] else []) ++ ["setFrame"], .fell⟩
 
+/-! ### msgReader.setFrame: a frame's header only sets the frame's own three fields -/
+
+/-- in particular it does not touch the message's read allowance, compression flag or context. -/
+def setFrameExpected : Res := ⟨["fin=h.fin", "payloadLength=h.payloadLength", "maskKey=h.maskKey"], .fell⟩
+
 end WS.Props.G2
